@@ -201,18 +201,26 @@ impl ByzState {
         let mut frame = Vec::new();
         let desc: String;
         match &rule.kind {
-            ByzKind::StreamBeyondStreamCredit { delta } => {
+            ByzKind::StreamBeyondStreamCredit { delta, empty_fin } => {
                 let id = my_send_stream?;
                 let credit = c.max_stream_data.get(&id).copied().unwrap_or(0).max(initial_stream_credit(id));
                 let off = credit.saturating_add(*delta).min(wire::VARINT_MAX - 2);
-                stream_frame(&mut frame, id, off, 1, false);
+                if *empty_fin {
+                    stream_frame(&mut frame, id, off + 1, 0, true);
+                } else {
+                    stream_frame(&mut frame, id, off, 1, false);
+                }
                 desc = format!("StreamBeyondStreamCredit stream {id} offset {off} (credit {credit})");
             }
-            ByzKind::StreamBeyondConnCredit { delta } => {
+            ByzKind::StreamBeyondConnCredit { delta, empty_fin } => {
                 let id = my_send_stream?;
                 let credit = c.max_data.max(tp.initial_max_data);
                 let off = credit.saturating_add(*delta).min(wire::VARINT_MAX - 2);
-                stream_frame(&mut frame, id, off, 1, false);
+                if *empty_fin {
+                    stream_frame(&mut frame, id, off + 1, 0, true);
+                } else {
+                    stream_frame(&mut frame, id, off, 1, false);
+                }
                 desc = format!("StreamBeyondConnCredit stream {id} offset {off} (conn credit {credit})");
             }
             ByzKind::StreamAtMaxOffset => {
